@@ -87,7 +87,14 @@ func (e *Engine) prepareGoalMode2(hyp, goal *Term, dropQ bool, strict bool) []*T
 		for _, t := range insts {
 			seen[t] = true
 		}
-		var cands, cands2, candsA []*Term
+		var cands, cands2, candsA, candsS []*Term
+		addSpecArg := func(t *Term) {
+			if t == nil || t.Sort != Int || t.IsConst() || seen[t] || t.HasBound() {
+				return
+			}
+			seen[t] = true
+			candsS = append(candsS, t)
+		}
 		addArg := func(t *Term) {
 			if t == nil || t.Sort != Int || t.IsConst() || seen[t] || t.HasBound() {
 				return
@@ -130,7 +137,13 @@ func (e *Engine) prepareGoalMode2(hyp, goal *Term, dropQ bool, strict bool) []*T
 				}
 			case "app":
 				for _, a := range t.Args {
-					add(a)
+					if strings.HasPrefix(t.Name, "spec:") {
+						// arguments of an uninterpreted specification function in the goal:
+						// what a hypothesis about that function is to be instantiated at
+						addSpecArg(a)
+					} else {
+						add(a)
+					}
 				}
 			}
 			for _, a := range t.Args {
@@ -153,7 +166,15 @@ func (e *Engine) prepareGoalMode2(hyp, goal *Term, dropQ bool, strict bool) []*T
 		if len(candsA) > 6 {
 			candsA = candsA[:6]
 		}
+		// largest first: the interesting arguments are element reads, the small
+		// ones are slice headers
+		sort.SliceStable(candsS, func(i, j int) bool { return Size(candsS[i]) > Size(candsS[j]) })
+		if len(candsS) > 6 {
+			candsS = candsS[:6]
+		}
 		insts = append(insts, cands...)
+		insts = append(insts, c.IntC(0)) // first element (queue heads, slot 0)
+		insts = append(insts, candsS...)
 		insts = append(insts, candsA...)
 		insts = append(insts, cands2...)
 	}
